@@ -48,6 +48,23 @@ def drives(kind, ph, n):
                 {"amp": ["ramp", 40, 6.0, 1.0], "det": ["const", 40, 2.0], "phase": ph + 1.3},
             ]
         }
+    if kind == "gap":
+        return {
+            "pulses": [
+                {"amp": ["const", 40, 6.0], "det": ["const", 40, 2.0], "phase": ph},
+                {"delay": 20},
+                {"amp": ["const", 40, 4.0], "det": ["const", 40, -3.0], "phase": ph + 0.4},
+            ]
+        }
+    if kind == "slm_same":
+        # two identical pulses: only the interaction matrix changes when the SLM mask ends
+        return {
+            "pulses": [
+                {"amp": ["const", 50, 6.0], "det": ["const", 50, 1.0], "phase": ph},
+                {"amp": ["const", 50, 6.0], "det": ["const", 50, 1.0], "phase": ph},
+            ],
+            "slm": [0] if n < 3 else [0, 2],
+        }
     if kind == "phasejump":
         return {
             "pulses": [
@@ -109,7 +126,7 @@ def _cfgs(tier):
 def bounds(tier, seed):
     return {
         "registers": ["pair", "bent3", "zig4"] + (["tri3", "rect4", "chain5", "chain6"] if tier == "thorough" else []),
-        "drive_kinds": ["global", "twophase", "phasejump (same amplitude/detuning, phase jump)", "dmm", "local", "slm"],
+        "drive_kinds": ["global", "twophase", "phasejump (same amplitude/detuning, phase jump)", "gap (idle delay between pulses)", "dmm", "local", "slm", "slm_same (identical pulses, only the interaction changes at the mask end)"],
         "basis": ["rydberg", "xy (global, twophase, slm)"],
         "phase": [0.0, 0.7],
         "configs": _cfgs(tier),
@@ -121,7 +138,7 @@ def cases(tier, seed):
     shapes = ["pair", "bent3", "zig4"] + (["tri3", "rect4"] if tier == "thorough" else [])
     for shape in shapes:
         n = len(SHAPES[shape])
-        for kind in ("global", "twophase", "phasejump", "dmm", "local", "slm"):
+        for kind in ("global", "twophase", "phasejump", "gap", "dmm", "local", "slm", "slm_same"):
             for basis in ("rydberg", "xy"):
                 if basis == "xy" and kind in ("dmm", "local"):
                     continue
@@ -170,7 +187,7 @@ def tolerance(n, cfg, nsteps, label=""):
     trunc = 4 * nsteps * n * cfg.get("precision", 1e-8) + 1e-9
     if n == 2:
         return trunc
-    if "/slm/" in label and n >= 4:
+    if ("/slm/" in label or "/slm_same/" in label) and n >= 4:
         return trunc + (1e-2 if "/xy/" in label else 1e-3)
     if "/xy/" in label and n >= 4:
         return trunc + 1e-3  # strong exchange (|U| dt ~ 1): measured <= 3.3e-4 over the thorough alphabet
